@@ -51,6 +51,8 @@ def main():
             mod.replay(shard["replay"], ctx)
         else:
             mod.run(shard, ctx)
+            if os.environ.get("VERIF_SELFTEST_ABORT_SHARD") in (str(shard.get("index")), "all"):
+                raise RuntimeError("self-test: harness error injected after the shard ran")
     except BaseException as e:  # noqa: BLE001 - the harness itself failed
         status = "harness-error"
         err = "".join(traceback.format_exception(type(e), e, e.__traceback__))[-6000:]
